@@ -359,7 +359,12 @@ class Interp:
             elif isinstance(sh, Top):
                 out.add(sh)
             elif isinstance(sh, Ref) and sh.kind == "obj":
-                out.add(Sc())
+                c = self.cell(sh)
+                if c.ci is not None and any(b.rsplit(".", 1)[-1] == "NamedTuple" for b in self.repo.external_bases(c.ci)):
+                    for fv in c.fields.values():
+                        out |= fv
+                else:
+                    out |= self.top(f"iteration over an instance of {c.ci.name if c.ci else 'an object'} is not modelled")
         return frozenset(out)
 
     def derive(self, parts: list[frozenset], fr: Frame | None, node: ast.AST | None, check: bool = True, agg: bool = False, none: bool = False) -> frozenset:
@@ -1325,6 +1330,12 @@ class Interp:
         for sh in base:
             if isinstance(sh, Ref) and sh.kind == "obj":
                 c = self.cell(sh)
+                if name == "__dict__":
+                    d = self.dict_((id(node), fr.inv, "__dict__", sh.key), self.site(fr, node))
+                    for n in list(c.fields):
+                        self.store_entry(d, V(Const(n)), self.attr(V(sh), n, node, env, fr))
+                    out.add(d)
+                    continue
                 if name in c.fields:
                     v = c.fields[name]
                     if (sh.key, name) in self.stale:
@@ -1364,7 +1375,7 @@ class Interp:
             elif isinstance(sh, Top):
                 out.add(sh)
             elif isinstance(sh, Tup):
-                out.add(Sc())
+                out |= self.top(f"attribute `{name}` of a tuple at {self.site(fr, node)}")
             elif isinstance(sh, Ref):
                 out.add(Opaque(f"bound {name}"))
             elif isinstance(sh, Fn):
@@ -1380,11 +1391,33 @@ class Interp:
                 tups = [sh for sh in v if isinstance(sh, Tup)]
                 if len(v) == 1 and tups:
                     args += list(tups[0].items)
+                elif isinstance(call.func, ast.Name) and call.func.id == "zip" and len(call.args) == 1:
+                    # zip(*pairs): transposition - one collection per tuple position
+                    els = [sh for sh in self.elems(v) if isinstance(sh, Tup)]
+                    width = {len(t.items) for t in els}
+                    if len(width) == 1 and len(els) == len(self.elems(v)):
+                        args.append(V(Tup(tuple(V(self.coll((id(call), fr.inv, "unzip", i), self.site(fr, call), frozenset().union(*[t.items[i] for t in els]))) for i in range(width.pop())), "unzip")))
+                    else:
+                        args.append(self.top(f"`{norm(call, 50)}`: transposition of values of unknown shape"))
                 else:
+                    self.top(f"`*{norm(a.value, 40)}` in `{norm(call, 50)}`: argument list of unknown length")
                     args.append(self.elems(v))
             else:
                 args.append(self.ev(a, env, fr))
         kwargs = {k.arg: self.ev(k.value, env, fr) for k in call.keywords if k.arg is not None}
+        for k in call.keywords:
+            if k.arg is None:
+                v = self.ev(k.value, env, fr)
+                for sh in v:
+                    if isinstance(sh, Ref) and sh.kind == "dict":
+                        for kk, vv in list(self.cell(sh).entries):
+                            names = [c.value for c in kk if isinstance(c, Const) and isinstance(c.value, str)]
+                            if len(names) != len(kk) or not names:
+                                self.top(f"`**{norm(k.value, 40)}` with computed keys")
+                            for nm in names:
+                                kwargs[nm] = kwargs.get(nm, E) | vv
+                    elif not isinstance(sh, Opaque):
+                        self.top(f"`**{norm(k.value, 40)}` is not a known dictionary")
         return args, kwargs
 
     def call(self, call: ast.Call, env: dict, fr: Frame) -> frozenset:
@@ -1790,6 +1823,8 @@ class Interp:
             grouped = any(self.live(sc.assoc) for sc in self.scalars(self.elems(args[1])))
             self.add_part(r, [("part", site, f"`{norm(call, 60)}` keeps only some elements", grouped)])
             return V(r)
+        if name == "zip" and len(args) == 1 and len(args[0]) == 1 and isinstance(next(iter(args[0])), Tup) and next(iter(args[0])).site == "unzip":
+            return args[0]
         if name == "zip":
             r = self.coll(key, site)
             self.add(r, V(Tup(tuple(self.elems(a) for a in args), site)))
@@ -1814,6 +1849,33 @@ class Interp:
             return V(r)
         if name in ("typing.cast", "cast") and len(args) == 2:
             return args[1]
+        if name in ("dataclasses.fields", "fields") and args:
+            r = self.coll(key, site)
+            for sh in args[0]:
+                ci = self.cell(sh).ci if isinstance(sh, Ref) and sh.kind == "obj" else self.repo.classes.get(sh.fq) if isinstance(sh, Cls) else None
+                if ci is None:
+                    return self.top("dataclasses.fields of an unknown object")
+                for c in reversed(self.repo.mro(ci)):
+                    for n in c.ann_attrs:
+                        fo = self.obj((key, "field", n), None, site)
+                        self.set_field(fo, "name", V(Const(n)), strong=False)
+                        self.add(r, V(fo))
+            return V(r)
+        if name in ("dataclasses.asdict", "asdict", "vars", "dataclasses.astuple", "astuple") and args:
+            objs = [sh for sh in args[0] if isinstance(sh, Ref) and sh.kind == "obj"]
+            if len(objs) != len(args[0]) or not objs:
+                return self.top(f"{name} of an unknown object")
+            if short == "astuple":
+                r = self.coll(key, site)
+                for o in objs:
+                    for n, fv in list(self.cell(o).fields.items()):
+                        self.add(r, self.attr(V(o), n, call, env, fr))
+                return V(r)
+            d = self.dict_(key, site)
+            for o in objs:
+                for n in list(self.cell(o).fields):
+                    self.store_entry(d, V(Const(n)), self.attr(V(o), n, call, env, fr))
+            return V(d)
         if name in ("print", "warnings.warn"):
             return NONE_V
         if name == "getattr" and len(args) >= 2:
